@@ -3,6 +3,7 @@ package bigbuff
 import (
 	"context"
 	"sync"
+	"sync/atomic"
 
 	"github.com/joeycumines/go-bigbuff/internal/v/vrt"
 )
@@ -161,7 +162,13 @@ func conflatedScenario() {
 func chainScenario() {
 	a := mkInput("a", false)
 	b := mkInput("b", false)
-	ChainAfterFunc(a.ctx, b.ctx, func() { vrt.Log("f") })
+	var ran atomic.Int32
+	ChainAfterFunc(a.ctx, b.ctx, func() { vrt.Log("f"); ran.Add(1) })
+	awaitRan := func() { // positive expectations are awaited (a never-running f is a livelock), not sampled
+		for ran.Load() == 0 {
+			vrt.Yield()
+		}
+	}
 	mask := vrt.Choose(4, 0)
 	var wg sync.WaitGroup
 	for i, in := range []ctxIn{a, b} {
@@ -174,11 +181,17 @@ func chainScenario() {
 		}
 	}
 	wg.Wait()
-	settle()
 	any := a.state == 1 || b.state == 1 || (mask&1 != 0 && a.state == 0) || (mask&2 != 0 && b.state == 0)
+	if any {
+		awaitRan()
+	}
+	settle()
 	vrt.Log("phase1", any)
 	a.cancel()
 	b.cancel()
+	if a.state != 3 || b.state != 3 {
+		awaitRan()
+	}
 	settle()
 	vrt.Log("phase2", a.state != 3 || b.state != 3) // some context is cancelled by now unless neither can be
 	vrt.Log("end")
